@@ -490,7 +490,9 @@ class Snapshot:
             buffer_size_limit_bytes=memory_budget_bytes,
         )
 
-        if not is_batching_disabled():
+        # Merging reads of one location would undo the tiling that keeps the
+        # buffers within memory_budget_bytes.
+        if not is_batching_disabled() and memory_budget_bytes is None:
             read_reqs = batch_read_requests(read_reqs=read_reqs)
 
         sync_execute_read_reqs(
